@@ -49,6 +49,10 @@ def relpath(ref):
         return "me." + p
     if rel == "abs":
         return "." + p
+    if rel == "fmain":
+        return "framer.main." + p
+    if rel == "frmain":
+        return "framer.main.frame.main." + p
     return p
 
 
@@ -62,6 +66,10 @@ def ref_text(ref):
         return p + " of me"
     if rel == "abs":
         return "." + p
+    if rel == "fmain":
+        return p + " of framer main"
+    if rel == "frmain":
+        return p + " of frame main"
     return p
 
 
@@ -102,8 +110,12 @@ def act_text(a):
 
 
 def render(prog, observer=True):
-    L = ["house verif", ""]
+    L = []
+    house = None
     for fr in prog["framers"]:
+        if fr.get("house", "verif") != house:
+            house = fr.get("house", "verif")
+            L += ["house %s" % house, ""]
         line = "framer %s be %s" % (fr["name"], fr["sched"])
         if fr.get("first"):
             line += " first %s" % fr["first"]
@@ -238,8 +250,8 @@ class Observer:
         self.who = []           # per tick: the framer object of every event of that tick
         self.err_msg = ""       # text of a run-time exception, for the oracle only
 
-    def house(self):
-        return self.sk.houses[0]
+    def taskables(self):
+        return [t for house in self.sk.houses for t in house.taskables]
 
     def definition_of(self, framer):
         """which definition a live framer object was made from: itself, or (clone) found through its main framer"""
@@ -276,7 +288,7 @@ class Observer:
                 for aux in frame.auxes:
                     if hasattr(aux, "frameNames"):
                         visit(aux)
-        for t in self.house().taskables:
+        for t in self.taskables():
             if t.name != OBS:
                 visit(t)
         return order
@@ -291,11 +303,11 @@ class Observer:
     def announce(self, fr, out):
         u = self.uid(fr)
         dname = self.definition_of(fr)
-        self.info[u] = {"name": fr.name, "tag": fr.tag, "insular": bool(fr.insular), "razeable": bool(fr.razeable),
+        self.info[u] = {"name": fr.name, "house": fr.store.house.name, "tag": fr.tag, "insular": bool(fr.insular), "razeable": bool(fr.razeable),
                         "original": bool(fr.original), "def": dname}
         main = "~" if fr.main is None else "%s/%s" % (fr.main.framer.name, fr.main.name)
-        out.append("F %s tag=%s o=%d i=%d r=%d main=%s inode=%s first=%s" % (
-            fr.name, fr.tag, fr.original, fr.insular, fr.razeable, main, enc(fr.inode),
+        out.append("F %s house=%s tag=%s o=%d i=%d r=%d main=%s inode=%s first=%s" % (
+            fr.name, fr.store.house.name, fr.tag, fr.original, fr.insular, fr.razeable, main, enc(fr.inode),
             fr.first.name if hasattr(fr.first, "name") else enc(fr.first)))
         fdefs = {f["name"]: f for f in self.defs[dname]["frames"]} if dname else {}
         for frame in fr.frameNames.values():
@@ -303,8 +315,10 @@ class Observer:
                                                     ">".join(x.name for x in frame.outline)))
             if frame.name in fdefs:
                 for (i, j, ref, sname) in ref_shares(fdefs[frame.name], frame):
-                    out.append("P %s %s %d %d %s" % (fr.name, frame.name, i, j, enc(sname)))
-                    self.paths.append((fr.name, u, frame.name, i, j, ref, sname))
+                    out.append("P %s %s %d %d %s" % (fr.name, frame.name, i, j,
+                                                     "~" if sname is None else "%s/%s" % (fr.store.house.name, sname.strip("."))))
+                    mainf = (fr.main.framer.name, fr.main.name) if fr.main is not None else None
+                    self.paths.append((fr.name, u, frame.name, i, j, ref, sname, mainf))
 
     def snapshot(self, out):
         live = self.walk()
@@ -321,9 +335,11 @@ class Observer:
                 if frame.auxes:
                     out.append("X %s %s %s" % (fr.name, frame.name, ",".join(a.name for a in frame.auxes)))
                 snap["auxes"][(u, frame.name)] = [self.uid(a) for a in frame.auxes]
-        names = sorted(n for n in self.house().names["tasker"].keys() if n != OBS)
-        snap["names"] = set(names)
-        out.append("N " + ",".join(names))
+        snap["names"] = {}
+        for house in self.sk.houses:
+            names = sorted(n for n in house.names["tasker"].keys() if n != OBS)
+            snap["names"][house.name] = set(names)
+            out.append("N %s %s" % (house.name, ",".join(names)))
         self.snaps.append(snap)
 
     def __call__(self, store):
@@ -337,15 +353,15 @@ class Observer:
         out.append("T %d" % self.count)
         self.count += 1
         if self.count >= self.ticks:
-            for tasker in self.house().taskables:
+            for tasker in self.taskables():
                 tasker.desire = STOP
 
 
 SKIP_TOP = ("meta", "time", "realtime", "datetime", "ioflo")
 
 
-def store_dump(store):
-    """`V <share> value=<int>` for every share with a numeric `value` field (sorted)"""
+def store_dump(store, hname):
+    """`V <house>/<share> value=<int>` for every share with a numeric `value` field (sorted)"""
     from ioflo.base import storing
     rows = []
 
@@ -358,7 +374,7 @@ def store_dump(store):
             v = None
         if isinstance(v, bool) or not isinstance(v, (int, float)):
             return
-        rows.append("V %s value=%s" % (name, ("%d" % v) if v == int(v) else repr(v)))
+        rows.append("V %s/%s value=%s" % (hname, name, ("%d" % v) if v == int(v) else repr(v)))
 
     def walk(node, pre):
         for k, v in node.items():
@@ -415,7 +431,7 @@ def run_real(prog):
             lines.append("ERR %s" % err)
         else:
             lines.append("END")
-            lines.extend(store_dump(sk.houses[0].store))
+            lines.extend(sorted(l for house in sk.houses for l in store_dump(house.store, house.name)))
         res = (lines, obs)
     if len(_run_cache) > 200:
         _run_cache.clear()
@@ -458,7 +474,7 @@ def enc_act(a):
 def encode(prog):
     t = ["run", str(prog["ticks"]), str(len(prog["framers"]))]
     for fr in prog["framers"]:
-        t += ["F", fr["name"], fr["sched"], enc(fr.get("first")), enc(fr.get("via") or ""), str(len(fr["frames"]))]
+        t += ["F", fr.get("house", "verif"), fr["name"], fr["sched"], enc(fr.get("first")), enc(fr.get("via") or ""), str(len(fr["frames"]))]
         for f in fr["frames"]:
             t += ["R", f["name"], enc(f.get("over")), enc(f.get("via") or ""), str(len(f["items"]))]
             for it in f["items"]:
@@ -519,7 +535,7 @@ def gen_need(rng, fr_tags, has_aux, counted, shared_reads):
     return n
 
 
-def gen_body(rng, name, letter, later, is_host, shared_reads):
+def gen_body(rng, name, letter, later, is_host, shared_reads, force_clone=False):
     """frames of one framer.  `later` = moots this framer may clone / rear"""
     nfr = rng.choice([2, 3, 3, 4]) if is_host else rng.choice([1, 2, 2, 3])
     nested = is_host or rng.random() < 0.3
@@ -559,13 +575,14 @@ def gen_body(rng, name, letter, later, is_host, shared_reads):
     tags = []
     counted = rng.random() < 0.7
     if counted:
-        first["items"].append(act_item("enter", {"k": "put", "v": 0, "ref": dict(R_CNT)}))
+        # in the frame every outline starts with, so that the counter is initialised whatever frame is entered first
+        frames[0]["items"].append(act_item("enter", {"k": "put", "v": 0, "ref": dict(R_CNT)}))
     ntag = 0
     mine_count = {}
     for k, f in enumerate(kids):
         items = f["items"]
         # clone clauses
-        if later and rng.random() < (0.75 if is_host else 0.4):
+        if later and ((force_clone and k == 0) or rng.random() < (0.75 if is_host else 0.4)):
             for _ in range(rng.choice([1, 1, 2, 3]) if is_host else 1):
                 m = rng.choice(later)
                 if rng.random() < 0.3:
@@ -630,38 +647,84 @@ def gen_body(rng, name, letter, later, is_host, shared_reads):
     return frames, entry
 
 
-def gen_prog(rng):
-    shared_reads = rng.random() < 0.15
-    nm = rng.choice([1, 2, 2, 3])
-    nh = rng.choice([1, 1, 2])
+MAIN_CNT = {"p": "cnt", "rel": "fmain"}       # the counter of the framer of the clone's main frame
+MAIN_MH = {"p": "mh", "rel": "fmain"}
+MAIN_MF = {"p": "mf", "rel": "frmain"}
+
+
+def add_main_refs(rng, frames, first_name):
+    """an inner-only moot (never cloned by a host): it addresses its main framer and main frame"""
+    top = frames[0]
+    top["items"].append(act_item("enter", {"k": "put", "v": 0, "ref": dict(MAIN_MH)}))
+    top["items"].append(act_item("enter", {"k": "put", "v": 1, "ref": dict(MAIN_MF)}))
+    for f in frames:
+        r = rng.random()
+        if r < 0.5:
+            f["items"].append(act_item(rng.choice(["enter", "recur"]), {"k": "inc", "ref": dict(rng.choice([MAIN_CNT, MAIN_MH])), "v": 1}))
+        if rng.random() < 0.4:
+            f["items"].append({"t": "go", "far": "me" if rng.random() < 0.3 else rng.choice(frames)["name"],
+                               "needs": [rng.choice([{"k": "sh", "ref": dict(MAIN_MH), "op": rng.choice([">=", "=="]), "v": rng.choice([1, 2, 3])},
+                                                     {"k": "sh", "ref": dict(MAIN_MF), "op": "==", "v": 1},
+                                                     {"k": "sh", "ref": dict(MAIN_CNT), "op": "!=", "v": 1}])]})
+
+
+def gen_house(rng, hname, hosts, hletters, moots, mletters, shared_reads, px):
     framers = []
-    moots = MOOTS[:nm]
-    for h in range(nh):
-        name = "h" + "ab"[h]
-        frames, first = gen_body(rng, name, "fg"[h], moots, True, shared_reads)
+    inner_only = len(moots) >= 2 and rng.random() < 0.6      # the last moot is cloned by moots only
+    host_moots = moots[:-1] if inner_only else moots
+    for h, name in enumerate(hosts):
+        frames, first = gen_body(rng, name, hletters[h], host_moots, True, shared_reads)
         framers.append({"name": name, "sched": "active", "first": first, "via": rng.choice([None, "hin"]), "frames": frames})
-    if rng.random() < 0.15:
+    if px and rng.random() < 0.15:
         # an ordinary auxiliary framer used by one host frame
         frames, first = gen_body(rng, "px", "p", [], False, shared_reads)
         framers.append({"name": "px", "sched": "aux", "first": first if rng.random() < 0.5 else None, "via": None, "frames": frames})
         kids = [f for f in framers[0]["frames"] if f["over"]]
         rng.choice(kids)["items"].insert(3, {"t": "aux", "of": "px", "as": None, "via": None})
     for i, m in enumerate(moots):
-        frames, first = gen_body(rng, m, "abc"[i], moots[i + 1:], False, shared_reads)
+        frames, first = gen_body(rng, m, mletters[i], moots[i + 1:], False, shared_reads,
+                                 force_clone=(inner_only and i == len(moots) - 2))
+        if inner_only and i == len(moots) - 1:
+            add_main_refs(rng, frames, first)
         explicit = frames[0]["name"] != first or rng.random() < 0.3
         framers.append({"name": m, "sched": "moot", "first": first if explicit else None, "via": rng.choice(VIAS_FRAMER), "frames": frames})
     if rng.random() < 0.3:
-        raze_scenario(rng, framers, moots)
+        raze_scenario(rng, framers, host_moots)
     rng.shuffle(framers) if rng.random() < 0.2 else None
+    for fr in framers:
+        fr["house"] = hname
+    return framers
+
+
+def gen_prog(rng):
+    shared_reads = rng.random() < 0.15
+    nm = rng.choice([1, 2, 2, 3])
+    nh = rng.choice([1, 1, 2])
+    framers = gen_house(rng, "verif", ["ha", "hb"][:nh], "fg", MOOTS[:nm], "abc", shared_reads, True)
+    if rng.random() < 0.3:
+        # a second house under the same skedder: own store, own name registry, its own rears and razes in between
+        second = gen_house(rng, "other", ["hc"], "k", ["mx", "my"][:rng.choice([1, 2])], "xy", shared_reads, False)
+        host = [f for f in second if f["sched"] == "active"][0]
+        kids = [f for f in host["frames"] if f["over"] == host["frames"][0]["name"]]
+        if len(kids) >= 2:
+            a, b = rng.sample(kids, 2)
+            a["items"].append(act_item(rng.choice(["recur", "enter", "precur"]), {"k": "rear", "of": "mx", "frame": b["name"]}))
+            if rng.random() < 0.5:
+                b["items"].append(act_item(rng.choice(["recur", "exit"]), {"k": "raze", "who": rng.choice(["all", "last"]), "frame": None}))
+        if rng.random() < 0.8:
+            raze_scenario(rng, framers, [m for m in MOOTS[:nm] if not uses_main([f for f in framers if f["name"] == m][0])], loop=True)
+        framers = framers + second
     return {"ticks": rng.choice([4, 6, 8, 10]), "framers": framers, "shared_reads": shared_reads}
 
 
-def raze_scenario(rng, framers, moots):
+def raze_scenario(rng, framers, moots, loop=False):
     """directed part: a host frame A rears into its sibling B and goes there; B razes while its clones are entered
     (some of which have already said `done`)"""
     host = rng.choice([f for f in framers if f["sched"] == "active"])
     kids = [f for f in host["frames"] if f["over"]]
     if len(kids) < 2:
+        return
+    if not moots:
         return
     a, b = rng.sample(kids, 2)
     m = rng.choice(moots)
@@ -672,6 +735,9 @@ def raze_scenario(rng, framers, moots):
                                {"k": "raze", "who": rng.choice(["all", "first", "last"]), "frame": None}))
     if rng.random() < 0.5:
         b["items"].insert(3, {"t": "go", "far": "me", "needs": [{"k": "re", "op": "==", "v": 2}]})
+    if loop or rng.random() < 0.4:
+        # back to A: it rears again, under the tag and name the razed clone had
+        b["items"].insert(3, {"t": "go", "far": a["name"], "needs": [{"k": "re", "op": ">=", "v": rng.choice([2, 3])}]})
     mdef = [f for f in framers if f["name"] == m][0]
     first = [f for f in mdef["frames"] if f["name"] == (mdef["first"] or mdef["frames"][0]["name"])][0]
     if rng.random() < 0.6 and not any(it["t"] == "act" and it["a"]["k"] == "done" for it in first["items"]):
@@ -806,13 +872,16 @@ def alone_program(prog, hi, fi, ii):
                 for n in x["needs"]:
                     if n["k"] == "aux" and n["tag"] == tag:
                         n["tag"] = aname
-    p["framers"].append(cp)
+    p["framers"].insert(p["framers"].index(moot) + 1, cp)       # same house as the original
     return p, aname, cname
 
 
 def forever_program(prog, moot_name):
     """the original run as an ordinary auxiliary of a frame that is never left"""
-    moots = [copy.deepcopy(f) for f in prog["framers"] if f["sched"] == "moot"]
+    house = [f for f in prog["framers"] if f["name"] == moot_name][0].get("house", "verif")
+    moots = [copy.deepcopy(f) for f in prog["framers"] if f["sched"] == "moot" and f.get("house", "verif") == house]
+    for m in moots:
+        m["house"] = "verif"
     cp = copy.deepcopy([m for m in moots if m["name"] == moot_name][0])
     cp["name"], cp["sched"] = "q" + moot_name, "aux"
     host = {"name": "zh", "sched": "active", "first": "w", "via": None,
@@ -820,21 +889,41 @@ def forever_program(prog, moot_name):
     return {"ticks": prog["ticks"] + 2, "framers": [host, cp] + moots}
 
 
+def uses_main(fdef):
+    """does the framer's own script address its main framer / main frame (only a clone has one)?"""
+    def refs():
+        for f in fdef["frames"]:
+            for it in f["items"]:
+                if it["t"] == "act" and "ref" in it["a"]:
+                    yield it["a"]["ref"]
+                elif it["t"] == "go":
+                    for n in it["needs"]:
+                        if n["k"] == "sh":
+                            yield n["ref"]
+    return any(r["rel"] in ("fmain", "frmain") for r in refs())
+
+
 def relative_refs_ok(obs):
     """O2: every framer- / frame- / actor-relative reference resolves to the text's path with the own name substituted"""
-    for (fname, u, frame, i, j, ref, sname) in obs.paths:
+    for (fname, u, frame, i, j, ref, sname, mainf) in obs.paths:
         if ref["rel"] == "framer":
             want = "framer.%s.%s" % (fname, ref["p"])
         elif ref["rel"] == "frame":
             want = "framer.%s.frame.%s.%s" % (fname, frame, ref["p"])
+        elif ref["rel"] == "fmain" and mainf:
+            # `of framer main`: the framer of the clone's OWN main frame (not the outermost framer of the chain)
+            want = "framer.%s.%s" % (mainf[0], ref["p"])
+        elif ref["rel"] == "frmain" and mainf:
+            want = "framer.%s.frame.%s.%s" % (mainf[0], mainf[1], ref["p"])
         else:
             continue
         if sname is None and ref["p"] == "?":
             return ("O2/O1: framer %s frame %s: the frame has fewer acts than the original's script (item %d has no Act "
                     "object): an act was lost when the frame was cloned" % (fname, frame, i))
         if sname is None or sname.strip(".") != want:
-            return "O2: framer %s frame %s item %d: relative reference `%s` resolves to %r, the original's path with the own name is %r" % (
-                fname, frame, i, ref_text(ref), sname, want)
+            return "O2: framer %s frame %s item %d: relative reference `%s` resolves to %r, the original's path with %s is %r" % (
+                fname, frame, i, ref_text(ref), sname,
+                "the name of its own main framer / frame" if ref["rel"] in ("fmain", "frmain") else "the own name", want)
     for t, snap in enumerate(obs.snaps):
         names = list(snap["live"].values())
         if len(set(names)) != len(names):
@@ -847,10 +936,14 @@ class CHECK(core.Check):
     PROPERTY = "C12"
     LEAN_MODULES = ["IofloModel.Props.C12"]
     ENGINE = "clones"
-    N_QUICK = 80
-    N_THOROUGH = 1200
+    N_QUICK = 60
+    N_THOROUGH = 1000
     N_SEARCH = 60
-    RULE = ("generated programs: 1-2 active hosts (a top frame with 2-4 child frames, optionally a third level, the `under` "
+    RULE = ("generated programs: one house, or (30 %) two houses under one skedder, each with its own hosts, moots, store and "
+            "name registry and its own rears / razes interleaved with the other's (the first house then rears, razes and rears "
+            "again under the freed name); in 60 % of the houses with >= 2 moots the last moot is cloned by moots only (clone "
+            "nesting depth 2-3) and addresses its main framer and main frame (`of framer main`, `of frame main`: counters, "
+            "needs); per house 1-2 active hosts (a top frame with 2-4 child frames, optionally a third level, the `under` "
             "verb choosing a primary under that is not the lexically first child, first frames and transitions that name over "
             "frames and descend to their primary unders, looping transitions on recurred / "
             "elapsed / share / all|any|aux TAG is done) that clone 1-3 moot framers with named tags and `mine`, via none / "
@@ -897,7 +990,9 @@ class CHECK(core.Check):
     LEVEL_TEXT = ("Proved for all inputs on the model: relative store data - C12_relative_path_has_own_name, "
                   "C12_relative_paths_disjoint (two framer objects with different names never resolve framer-/frame-/actor-"
                   "relative references to one path, any contexts, inodes, references), C12_relative_path_is_substituted (the "
-                  "clone's path is the original's with the name segment substituted); what a clone is - "
+                  "clone's path is the original's with the name segment substituted), C12_main_relative_path_has_main_name "
+                  "(`of framer main` / `of frame main` name the framer of the clone's OWN main frame at every nesting depth); "
+                  "houses - C12_assign_registries_keeps_registries, C12_pruned_name_freed_in_own_house; what a clone is - "
                   "C12_frame_clone_copies_script, C12_frame_clone_of_unresolved, C12_clone_same_frame_forest (over / under / "
                   "next names copied, so resolveOverLinks and every outline are computed from the same input), "
                   "C12_clone_copies_definition, "
@@ -1035,7 +1130,7 @@ class CHECK(core.Check):
             dead = [u for u in prev["live"] if u not in snap["live"]]
             for u in dead:
                 nm = info[u]["name"]
-                if nm in snap["names"] and nm not in set(snap["live"].values()):
+                if nm in snap["names"].get(info[u]["house"], set()) and nm not in set(snap["live"].values()):
                     return "O3: tick %d: %s left the aux lists but its name is still registered (not free for the next rear)" % (t, nm)
         return None
 
@@ -1048,6 +1143,8 @@ class CHECK(core.Check):
             for fi, f in enumerate(fr["frames"]):
                 for ii, it in enumerate(f["items"]):
                     if it["t"] == "aux" and it.get("as"):
+                        if uses_main([x for x in prog["framers"] if x["name"] == it["of"]][0]):
+                            continue              # the original cannot run as an ordinary auxiliary: it has no main
                         if it["as"] == "mine":
                             # removing an automatic tag renumbers the other automatic tags of the same original
                             others = sum(1 for g in fr["frames"] for x in g["items"]
@@ -1062,7 +1159,7 @@ class CHECK(core.Check):
         r = random.Random(case.get("pick", 0))
         r.shuffle(sites)
         ev = events_of(lines)
-        vals = [l for l in lines if l.startswith("V framer.")]
+        vals = [l for l in lines if l.startswith("V ") and "/framer." in l.split(" ")[1]]
         for (hi, fi, ii) in sites[:2]:
             p2, aname, cname = alone_program(prog, hi, fi, ii)
             lines2, obs2 = run_real(p2)
@@ -1076,11 +1173,12 @@ class CHECK(core.Check):
                 return "O1: clone %s vs its original alone: event %d is %s with the clone and %s with the original" % (cname, k, a, b)
             vals2 = []
             for l in lines2:
-                if l.startswith("V framer."):
+                if l.startswith("V ") and "/framer." in l.split(" ")[1]:
                     head, rest = l[2:].split(" ", 1)
-                    segs = head.split(".")
+                    hname, path = head.split("/", 1)
+                    segs = path.split(".")
                     segs[1] = rename_prefix(segs[1], aname, cname)
-                    vals2.append("V %s %s" % (".".join(segs), rest))
+                    vals2.append("V %s/%s %s" % (hname, ".".join(segs), rest))
             if sorted(vals2) != sorted(vals):
                 d = sorted(set(vals) ^ set(vals2))
                 return "O1: clone %s vs its original alone: relative shares differ: %s" % (cname, d[:4])
@@ -1097,6 +1195,8 @@ class CHECK(core.Check):
         done = 0
         for u, inf in obs.info.items():
             if not inf["razeable"] or u not in life:
+                continue
+            if inf["def"] is None or uses_main([x for x in prog["framers"] if x["name"] == inf["def"]][0]):
                 continue
             nm = inf["name"]
             parent = nm.rsplit("_", 1)[0]
